@@ -18,7 +18,8 @@ RULE = ("generated interface family (as C01, every fifth interface rpc/encoded) 
         ' ; plus streams: nil items in repeating elements, simpleContent, same-named local elements / attributes with different types in different parents, nilled elements carrying attributes (schema-instance namespace under several prefixes)'
         ' ; arrays of arrays; two ports with one operation name and different outputs on one client'
         ' ; a nillable anyType element present and empty'
-        ' ; an encoded array in a reply that never declares the schema-instance namespace')
+        ' ; an encoded array in a reply that never declares the schema-instance namespace'
+        ' ; xsi:type on members below the top level; the members of repeating groups')
 ASSUMPTIONS = ["alphabet: no empty strings and no content-free objects (suds decodes both to None / '', pinned by "
                "its tests), no mixed content", "the reply writer is iface.write_envelope; expat re-reads every "
                "envelope before it is injected, so the writer's output is well-formed by an independent judge"]
